@@ -144,12 +144,21 @@ pub fn run_programs<W: std::io::Write>(seed: u64, nprog: u64, out: &mut W) {
 pub fn run_iter_writers<W: std::io::Write>(seed: u64, rounds: u64, out: &mut W) {
     for r in 0..rounds {
         let mut rng = Rng::new(splitmix(seed.wrapping_mul(104729).wrapping_add(r)));
-        let nkeys = 4 + rng.below(60);
+        // stable keys 0..nkeys are only ever updated; volatile keys nkeys..nkeys+nvol are inserted and
+        // invalidated by the writers while iterators run (every third round has none)
+        let nkeys = if rng.chance(1, 3) { 150 + rng.below(400) } else { 4 + rng.below(60) };
+        let nvol = if r % 3 == 2 { 0 } else { 8 + rng.below(nkeys / 2 + 8) };
         let writers = 1 + rng.below(3) as usize;
         let iters = 1 + rng.below(2) as usize;
         let cache = SCache::<u64, u64>::builder().build_with_hasher(VBuildHasher(HashKind::Mix));
-        for k in 0..nkeys {
-            cache.insert(k, k * 1_000_000);
+        // interleave the two classes in insertion order so that volatile keys sit everywhere in the map
+        for k in 0..nkeys.max(nvol) {
+            if k < nkeys {
+                cache.insert(k, k * 1_000_000);
+            }
+            if k < nvol {
+                cache.insert(nkeys + k, (nkeys + k) * 1_000_000);
+            }
         }
         cache.sync();
         let stop = Arc::new(std::sync::atomic::AtomicBool::new(false));
@@ -163,6 +172,14 @@ pub fn run_iter_writers<W: std::io::Write>(seed: u64, rounds: u64, out: &mut W) 
                     let k = (n * 7 + w as u64) % nkeys;
                     // value encodes key so that a yielded value can be checked for plausibility
                     c.insert(k, k * 1_000_000 + (w as u64 + 1) * 10_000 + (n % 10_000));
+                    if nvol > 0 {
+                        let v = nkeys + (n * 13 + w as u64) % nvol;
+                        if n % 2 == 0 {
+                            c.invalidate(&v);
+                        } else {
+                            c.insert(v, v * 1_000_000 + (n % 10_000));
+                        }
+                    }
                     n += 1;
                 }
             }));
@@ -186,11 +203,21 @@ pub fn run_iter_writers<W: std::io::Write>(seed: u64, rounds: u64, out: &mut W) 
                 total += 1;
                 let mut keys: Vec<u64> = v.iter().map(|(k, _)| *k).collect();
                 keys.sort();
-                let complete = keys == (0..nkeys).collect::<Vec<_>>();
+                // no key twice (stable or volatile); every stable key exactly once; nothing else
+                let nodup = keys.windows(2).all(|w| w[0] != w[1]);
+                let stable: Vec<u64> = keys.iter().copied().filter(|k| *k < nkeys).collect();
+                let complete = stable == (0..nkeys).collect::<Vec<_>>();
+                let known = keys.iter().all(|k| *k < nkeys + nvol);
                 let plausible = v.iter().all(|(k, val)| val / 1_000_000 == *k);
-                if !(complete && plausible) {
+                if !(nodup && complete && known && plausible) {
                     bad += 1;
-                    writeln!(out, "iterw-bad keys={} yielded={:?}", nkeys, v).unwrap();
+                    let missing: Vec<u64> = (0..nkeys).filter(|k| !stable.contains(k)).take(8).collect();
+                    writeln!(
+                        out,
+                        "iterw-bad keys={} volatile={} nodup={} complete={} plausible={} missing(first)={:?} yielded={}",
+                        nkeys, nvol, nodup, complete, plausible, missing, v.len()
+                    )
+                    .unwrap();
                 }
             }
         }
